@@ -55,13 +55,16 @@ stageLoop:
 			*logql.LabelFilter,
 			*logql.LabelFormatExpr,
 			*logql.DropLabelsExpr,
-			*logql.KeepLabelsExpr,
-			*logql.DistinctFilter:
+			*logql.KeepLabelsExpr:
 			// Do nothing on line, just skip.
 		case *logql.LineFormat,
 			*logql.DecolorizeExpr,
 			*logql.UnpackLabelParser:
 			// Stage modify the line, can't offload line filters after this stage.
+			break stageLoop
+		case *logql.DistinctFilter:
+			// Stage depends on records seen before, offloading a later line filter
+			// would change which records it sees.
 			break stageLoop
 		}
 	}
